@@ -199,7 +199,7 @@ def build_cases(tier, seed):
         spec = random_spec(s, prof)
         spec["global"]["log_events"] = False
         steps = spec["sim"]["steps"]
-        cases.append({"engine": "c15_diff", "id": f"C15-{i}", "seed": s, "spec": spec, "steps": steps, "variants": 2 if tier == "quick" else 3, "inject": True, "end_offset": [0, 0, 1, spec["sim"]["dt"] // 2][i % 4], "controller": None})
+        cases.append({"engine": "c15_diff", "id": f"C15-{i}", "seed": s, "spec": spec, "steps": steps, "variants": 2 if tier == "quick" else 3, "inject": True, "end_offset": [0, 0, 1, spec["sim"]["dt"] // 2][i % 4], "controller": None if i % 3 else {"stack": ["Dispatcher", "ChargingFleetManager", {"hostile": {"p": 0.2, "seed": 11}}]}})
     if tier == "thorough":
         for w, st in (("denver_downtown/denver_demo.yaml", 300), ("denver_downtown/denver_demo_fleets.yaml", 300)):
             pass  # shipped scenarios use ISO end times in the yaml; the generated ones cover the same code paths
